@@ -986,6 +986,18 @@ theorem export_visit (cfg : Cfg) (k : Key) (ha : k.alg.isSymmetric = false) (wit
   cases alg <;> simp [Alg.isSymmetric] at ha <;> cases sec <;> cases withD <;>
     simp [-List.all_eq_true, encodeJwk, Alg.isSymmetric, Alg.isEc, Alg.isBls, blsView, MembersClean, toks, visit, visitFrom, visitStep,
       f_crv, f_kty, f_x, f_y, f_d, c_crv, c_kty, c_x, c_y, c_d, c_EC, c_OKP, Acc.finish, exportParts, Alg.jwkKty]
+
+theorem Clean_jwkAlg (alg : Alg) : Clean (sb alg.jwkAlg) = true := by cases alg <;> decide
+
+/-- everything `encode_jwk` writes — any key, any mode, any `alg` view — is clean -/
+theorem encodeJwk_clean (k : Key) (mode : Mode) (a : Option Alg) (ms : List Member) (h : encodeJwk k mode a = .ok ms) :
+    MembersClean ms = true := by
+  have c_alg : Clean (sb "alg") = true := by decide
+  have c_k : Clean (sb "k") = true := by decide
+  have c_oct : Clean (sb "oct") = true := by decide
+  unfold encodeJwk blsView at h
+  (repeat' split at h) <;> cases h
+  all_goals (simp [-List.all_eq_true, MembersClean, c_crv, c_kty, c_x, c_y, c_d, c_EC, c_OKP, c_alg, c_k, c_oct, Clean_jwkAlg])
 end
 
 /-- `from_jwk_any` dispatches the exported `(kty, crv)` pair back to the key's own algorithm -/
